@@ -240,6 +240,8 @@ Definition Inv (c : coll) : Prop := no_ttl c /\ knd (skeys (docs c)).
 
 Lemma Inv_with_docs c l : Inv c -> knd (skeys l) -> Inv (with_docs c l).
 Proof. intros [H1 _] H2. split; [exact H1|exact H2]. Qed.
+Lemma Inv_with_docs_w c l : Inv c -> knd (skeys l) -> Inv (with_docs_w c l).
+Proof. intros [H1 _] H2. split; [exact H1|exact H2]. Qed.
 
 Lemma Inv_empty : Inv empty_coll.
 Proof. split; [constructor|exact I]. Qed.
